@@ -60,6 +60,7 @@ func main() {
 	modelCheck()
 	var sessions []*c03lib.Session
 	sessions = append(sessions, replaySchedules()...)
+	sessions = append(sessions, ruleSweep()...)
 	sessions = append(sessions, randomSessions()...)
 	validate(sessions)
 	selfTest(sessions)
@@ -83,6 +84,9 @@ func selfCheckAlphabet() {
 				vlib.Infra("request alphabet: %q (opname %q, vars %v) meant as %s is classified %s/%s/%s", q.Query, q.OpName, q.Vars, k, q.Cls, q.OpSel, q.VarCls)
 			}
 		}
+	}
+	if bad := c03lib.CheckRuleDocs(es.AST(), c03lib.NewQueryOnlyES().AST()); len(bad) > 0 {
+		vlib.Infra("per-rule documents disagree with gqlparser (fix or drop the constant):\n%s", strings.Join(bad, "\n"))
 	}
 	c03lib.ResetRules()
 	if got := strings.Join(c03lib.ProbeRules(es.Schema()), ","); got != "FOCT" {
@@ -170,9 +174,20 @@ type schedJ struct {
 	} `json:"reqs"`
 }
 
-func concretise(q, cls, opsel, vcls string) *c03lib.Request {
+func concretise(q, cls, opsel, vcls string, n int) *c03lib.Request {
 	r := &c03lib.Request{Rej: c03lib.Rej{K: "none"}, Vars: map[string]any{}}
 	switch q {
+	case "QI":
+		// rotate through the per-rule invalid documents
+		var docs []c03lib.RuleDoc
+		for _, d := range c03lib.InvalidByRule {
+			if !d.QOnly {
+				docs = append(docs, d)
+			}
+		}
+		r.FromRuleDoc(docs[n%len(docs)])
+		r.Kind = "invalid"
+		return r
 	case "Q1":
 		r.Query, r.Kind = "query F($id: Int!) { find(id: $id) user { id } }", "valid"
 		r.Vars = map[string]any{"id": 1}
@@ -269,7 +284,7 @@ func replaySchedules() []*c03lib.Session {
 			Exts: []c03lib.HookSet{c03lib.HookSetOf(masks[rng.Intn(len(masks))])}}}
 		var step []*c03lib.Request
 		for _, rq := range sj.Reqs {
-			step = append(step, concretise(rq.Q, rq.Cls, rq.OpSel, rq.VCls))
+			step = append(step, concretise(rq.Q, rq.Cls, rq.OpSel, rq.VCls, i))
 		}
 		s.Steps = [][]*c03lib.Request{step}
 		s.Sched = []c03lib.SchedOp{}
@@ -488,6 +503,59 @@ func runChild(name string, job c03lib.Job) ([]c03lib.ChildLine, string) {
 func panicInSwap(s *c03lib.Session, p string) bool {
 	return s.Cfg.Sugg && strings.Contains(p, "executor.(*Executor).parseQuery") &&
 		(strings.Contains(p, "validator.Validate(") || strings.Contains(p, "validator.RemoveRule(") || strings.Contains(p, "validator.ReplaceRule("))
+}
+
+// ruleSweep: every per-rule invalid document x suggestions on/off x cache
+// kind x first / repeated / concurrent (c03lib.GenRuleSweep).
+func ruleSweep() []*c03lib.Session {
+	variants := 1
+	if thorough {
+		variants = 4
+	}
+	rng := rand.New(rand.NewSource(vlib.Seed() + 303))
+	var gen, out []*c03lib.Session
+	for v := 0; v < variants; v++ {
+		gen = append(gen, c03lib.GenRuleSweep(rng, v)...)
+	}
+	seen := map[string]int{} // rule/sugg -> invalid requests sent
+	nreq := 0
+	for _, s := range runSessions("rules", gen) {
+		if s.NotRun != "" {
+			continue
+		}
+		for _, st := range s.Steps {
+			for _, q := range st {
+				if !q.Consistent() {
+					vlib.Infra("per-rule document %q (%s) meant as %s is classified %s/%s/%s", q.Query, q.Rule, q.Kind, q.Cls, q.OpSel, q.VarCls)
+				}
+				c.AddEvals(1)
+				nreq++
+				if q.Kind == "invalid" {
+					seen[fmt.Sprintf("%s/%v", q.Rule, s.Cfg.Sugg)]++
+				}
+			}
+		}
+		for _, cl := range s.Classes() {
+			c.Class(cl)
+		}
+		if len(s.Panics) > 0 {
+			reportPanics(s)
+			continue
+		}
+		out = append(out, s)
+	}
+	for _, r := range c03lib.RuleNames() {
+		for _, sugg := range []bool{true, false} {
+			if seen[fmt.Sprintf("%s/%v", r, sugg)] == 0 {
+				vlib.Infra("rule sweep is vacuous: no invalid document of rule %s was sent with suggestions disabled=%v", r, sugg)
+			}
+		}
+	}
+	c.Set("rule_sweep", map[string]any{"sessions": len(out), "requests": nreq, "rules": c03lib.RuleNames(),
+		"invalid_documents": len(c03lib.InvalidByRule), "near_miss_documents": len(c03lib.NearMiss)})
+	fmt.Fprintf(os.Stderr, "[rules] %d sessions / %d requests: %d invalid documents of %d validation rules (+%d valid near-misses) x suggestions on/off x 4 caches x first/repeated/concurrent\n",
+		len(out), nreq, len(c03lib.InvalidByRule), len(c03lib.RuleNames()), len(c03lib.NearMiss))
+	return out
 }
 
 // reportPanics classifies panics that left gqlgen during a session.
